@@ -9,10 +9,11 @@ kernels run; the kernels only build the new support.
 Proved: the dropna support exactly — `removeNan_cover`: sample i is kept iff it lies in one of the runs
 `[start k, end k]` the kernel returns (every kept sample inside the new support, no dropped sample inside), for
 any mask of positive length (loop invariant `CoverInv`: closed runs + the run still open); and its structure
-(`removeNan_runs`: every new start / end is a kept sample, as many starts as ends).  Threshold: the two **known findings**
-are proved on the model as witnesses (multi-interval support loses a kept sample; one-sample series
-reads out of bounds); the positive statement for single-interval supports is decided by the oracle
-+ correspondence run only.
+(`removeNan_runs`: every new start / end is a kept sample, as many starts as ends).  Threshold: the model follows the kernel as repaired by `fix:` d92f793 (epoch tracking), 6abb03b (epoch boundary
+before the last sample) and efb22ea (empty series); the former findings are kept as regression witnesses, the
+remaining **known finding** (a kept sample that is alone in its support interval gets a zero-length interval,
+which the constructor drops) is proved on the model as a witness; the positive statement is decided by the oracle +
+correspondence run only.
 -/
 namespace Pyn.C07
 open Pyn
@@ -327,15 +328,23 @@ def thrOob : R (Array Int × Array Int) → Bool
   | .error .oob => true
   | _ => false
 
-/-- KNOWN FINDING C07-threshold-multi-epoch: support [0,4],[10,14],[20,24], samples 10,11,12,20,21
-with mask 1,0,1,1,1.  The kernel returns (doubled) starts 20,23,40 and ends 20,24,42, i.e. [10,10] (zero length,
-dropped by the constructor), [11.5,12], [20,21]: the kept sample at t = 10 ends up outside the new support. -/
-theorem threshold_multi_epoch_witness :
+/-- the input of the former finding C07-threshold-multi-epoch (repaired by `fix:` d92f793): support [0,4],[10,14],[20,24],
+samples 10,11,12,20,21 with mask 1,0,1,1,1 — (doubled) starts 20,23,40 and ends 21,24,42, i.e. [10,10.5], [11.5,12],
+[20,21]: every kept sample inside, the rejected one outside, no interval across a gap of the support -/
+theorem threshold_multi_epoch_regression :
     thrIs (jitthreshold #[10, 11, 12, 20, 21] #[true, false, true, true, true] #[0, 10, 20] #[4, 14, 24])
-      #[20, 23, 40] #[20, 24, 42] = true := by decide +kernel
+      #[20, 23, 40] #[21, 24, 42] = true := by decide +kernel
 
-/-- KNOWN FINDING C07-threshold-single-sample: one sample → read of `time_array[1]` -/
-theorem threshold_single_sample_witness : thrOob (jitthreshold #[1] #[true] #[0] #[5]) = true := by decide +kernel
+/-- last sample alone in a later epoch (former bridging of the gap, repaired by `fix:` 6abb03b): support [10,14],[20,24],
+samples 10,11,20 all kept — [10,11] and the zero-length [20,20], never [10,20] -/
+theorem threshold_last_epoch_regression :
+    thrIs (jitthreshold #[10, 11, 20] #[true, true, true] #[10, 20] #[14, 24]) #[20, 40] #[22, 40] = true := by
+  decide +kernel
+
+/-- KNOWN FINDING C07-threshold-lone-sample (open): a kept sample that is the only sample of its support interval
+(here: the whole series) gets start = end = its own time; the IntervalSet constructor drops zero-length
+intervals, so `Tsd.threshold` loses that sample -/
+theorem threshold_lone_sample_witness : thrIs (jitthreshold #[1] #[true] #[0] #[5]) #[2] #[2] = true := by decide +kernel
 
 /-- single-interval support, ≥ 2 samples: boundaries are midpoints (doubled: 1 = 0+1, 3 = 1+2), run to the last sample -/
 example : thrIs (jitthreshold #[0, 1, 2, 3] #[true, false, true, true] #[0] #[3]) #[0, 3] #[1, 6] = true := by
